@@ -23,16 +23,16 @@ RULES = {
 
 ASSUME = ['spec/layouts.json is a correct transcription of IEEE 1722-2016 / acf-vss.md (hand-checked, see DESIGN appendix A)',
           'values outside the stated lattices are not executed',
-          'five worlds: gcc -O2 (full lattice), gcc -O0 (the project\'s default build), gcc -O3 -DNDEBUG (CMake Release), clang -O2 and clang -O1 with a 32-bit long (LLP64 data model), the latter four with the reduced lattice; other worlds are the subject of C14/C15']
+          'eight worlds: an ILP32 one (gcc -m32, freestanding, own minimal C runtime; reduced lattice) and gcc -O2 (full lattice; the reduced lattice again with the object at a 16-byte boundary + 1 and + 4), gcc -O0 (the project\'s default build), gcc -O3 -DNDEBUG (CMake Release), clang -O2, gcc -O2 without predefined byte-order macros, gcc -O2 -fshort-enums, and clang -O1 with a 32-bit long (LLP64 data model), the latter six with the reduced lattice; other worlds are the subject of C14/C15']
 
 
-def build(prop, opt='-O2', fresh=True, defs=(), cc='gcc'):
+def build(prop, opt='-O2', fresh=True, defs=(), cc='gcc', tag=''):
     b = core.fresh_dir(os.path.join(core.ROOT, 'build', prop)) if fresh else os.path.join(core.ROOT, 'build', prop)
     g = os.path.join(b, 'gen')
     rep = core.run_gen(g)
-    wobjs = core.build_world(os.path.join(b, 'world' + opt + ('' if cc == 'gcc' else '-' + cc)), g, cc=cc, cflags=(opt, '-g'), world_srcs=['wrap_generic.c'], defines=defs)
+    wobjs = core.build_world(os.path.join(b, 'world' + opt + tag + ('' if cc == 'gcc' else '-' + cc)), g, cc=cc, cflags=(opt, '-g'), world_srcs=['wrap_generic.c'], defines=defs)
     nobjs = core.build_native(os.path.join(b, 'native'), g, ['common.c', 'explore_fields.c'])
-    exe = core.link(os.path.join(b, 'explore_fields' + opt + ('' if cc == 'gcc' else cc)), nobjs + wobjs)
+    exe = core.link(os.path.join(b, 'explore_fields' + opt + tag + ('' if cc == 'gcc' else cc)), nobjs + wobjs)
     return exe, rep
 
 
@@ -116,6 +116,19 @@ def run(prop, tier):
     # and by the other compiler (argument evaluation order, different folding of attributes)
     exec_, _ = build(prop, '-O2', fresh=False, cc='clang')
     res = core.run_slices(exec_, ['--suite', prop, '--tier', 'lite' if tier == 'quick' else 'quick'], timeout=timeout, result=res, tag='clang -O2')
+    # a toolchain that does not predefine the byte-order macros (the library as a whole, not only the helpers), and the
+    # bare-metal enum ABI (-fshort-enums: an enum is as wide as its enumerators need)
+    NOMACRO = ('-U__BYTE_ORDER__', '-U__ORDER_LITTLE_ENDIAN__', '-U__ORDER_BIG_ENDIAN__', '-U__ORDER_PDP_ENDIAN__', '-Wno-builtin-macro-redefined')
+    exem, _ = build(prop, '-O2', fresh=False, defs=NOMACRO, tag='-nomacro')
+    res = core.run_slices(exem, ['--suite', prop, '--tier', 'lite' if tier == 'quick' else 'quick'], timeout=timeout, result=res, tag='gcc -O2, byte-order macros undefined')
+    if prop != 'C11':
+        # (not C11: with one-byte enums an identifier >= 256 is converted to the parameter's enum type by the *caller*, so
+        # "identifier 256" does not exist as an argument there and the call legitimately addresses field 0)
+        exee, _ = build(prop, '-O2', fresh=False, defs=('-fshort-enums',), tag='-shortenums')
+        res = core.run_slices(exee, ['--suite', prop, '--tier', 'lite' if tier == 'quick' else 'quick'], timeout=timeout, result=res, tag='gcc -O2 -fshort-enums')
+    # the object under test at other addresses (16-byte boundary + 1 and + 4; all eight residues are C15's subject)
+    for off in (1, 4):
+        res = core.run_slices(exe, ['--suite', prop, '--tier', 'lite' if tier == 'quick' else 'quick', '--off', str(off)], timeout=timeout, result=res, tag='object at a 16-byte boundary + %d' % off)
     if prop != 'C03':
         # a host whose long is 32 bits wide (LLP64; constants like 1UL behave as on every 32-bit target)
         from . import llp64
@@ -124,6 +137,11 @@ def run(prop, tier):
         res = core.run_slices(exel, ['--suite', prop, '--tier', 'lite' if tier == 'quick' else 'quick'], timeout=timeout, result=res, tag='llp64 (32-bit long)')
     if prop == 'C12':
         alias_contexts(res, os.path.join(core.ROOT, 'build', prop))
+    # an ILP32 host: pointers, size_t and long 32 bits wide, 64-bit integers aligned to four bytes, x87 arithmetic
+    from . import ilp32
+    bdir = os.path.join(core.ROOT, 'build', prop)
+    exei = ilp32.build(bdir, os.path.join(bdir, 'gen'), ['common.c', 'explore_fields.c'], 'explore_fields')
+    res = core.run_slices(exei, ['--suite', prop, '--tier', 'lite' if tier == 'quick' else 'quick'], timeout=timeout, result=res, tag='ilp32 (gcc -m32, freestanding)')
     if prop == 'C03':
         # guard pages only watch headers that end at a page boundary; the instrumented build (every load/store of the
         # library hooked, see C16) checks each access against the header extent at every address residue mod 8
